@@ -30,7 +30,67 @@ func sigDigits(s string) string {
 	return strings.TrimRight(s, "0")
 }
 
+// c11Long: one mantissa of 66 000 .. 72 000 words (about 1.3 million digits) per run, built from words, printed with
+// e, g or MarshalText and read back: a conversion may treat mantissas beyond 2^16 words differently (chunks, workers).
+func c11Long(c *hx.Ctx, r *hx.RNG) {
+	n := r.Range(66000, 72000)
+	w := make([]decimal.Word, n)
+	var sb strings.Builder
+	for i := range w {
+		w[i] = decimal.Word(r.U64() % wb)
+	}
+	w[n-1] = decimal.Word(wb/10 + r.U64()%(wb-wb/10))
+	w[0] = decimal.Word(1 + r.U64()%(wb-1)) // (no trailing zero word)
+	for i := n - 1; i >= 0; i-- {
+		fmt.Fprintf(&sb, "%019d", uint64(w[i]))
+	}
+	ds := strings.TrimRight(sb.String(), "0")
+	x := new(decimal.Decimal).SetPrec(uint(19*n)).SetBitsExp(append([]decimal.Word(nil), w...), int64(r.Range(-50, 50)))
+	if r.Bool() {
+		x.Neg(x)
+	}
+	ft := []string{"e", "g", "MarshalText"}[r.Intn(3)]
+	what := fmt.Sprintf("%s of a value of %d mantissa words (%d digits, first word %d, last word %d)", ft, n, len(ds), uint64(w[n-1]), uint64(w[0]))
+	c.Note(what)
+	var text string
+	pi := hx.Try(func() {
+		if ft == "MarshalText" {
+			b, _ := x.MarshalText()
+			text = string(b)
+		} else {
+			text = x.Text(ft[0], -1)
+		}
+	})
+	c.Eval(hx.HashStr(what), true, "format/"+ft+"/more-than-2^16-words")
+	if pi != nil {
+		c.Violate("panic", fmt.Sprintf("%s: %s panic %q at %s", what, pi.Class, pi.Text, pi.Stack), "")
+		return
+	}
+	if got := sigDigits(text); got != ds {
+		i := 0
+		for i < len(got) && i < len(ds) && got[i] == ds[i] {
+			i++
+		}
+		c.Violate("digits-differ", fmt.Sprintf("%s: the text (%d bytes, starts %q) carries %d significant digits, x has %d; they agree on the first %d", what, len(text), trunc120(text), len(got), len(ds), i), "")
+		return
+	}
+	z := new(decimal.Decimal).SetPrec(x.MinPrec())
+	var ok bool
+	if pi := hx.Try(func() { _, ok = z.SetString(text) }); pi != nil {
+		c.Violate("panic", fmt.Sprintf("%s: parsing the text back: %s panic %q", what, pi.Class, pi.Text), "")
+		return
+	}
+	c.Count("round_trips", 1)
+	if !ok || z.Cmp(x) != 0 || z.Signbit() != x.Signbit() {
+		c.Violate("round-trip-differs", fmt.Sprintf("%s: the text (starts %q) reads back (ok=%v) as a different value", what, trunc120(text), ok), "")
+	}
+}
+
 func c11Case(c *hx.Ctx, r *hx.RNG, idx int64) {
+	if idx%4000000 == 23 {
+		c11Long(c, r)
+		return
+	}
 	var v oracle.Val
 	cls := "finite"
 	switch k := r.Intn(100); {
